@@ -154,6 +154,27 @@ def compose(rng: random.Random, depth: int = 0):
     return {"type": "object", "properties": {"inner": inner, "list": {"type": "array", "items": compose(rng, depth + 1), "maxItems": 2}}, "required": ["inner"]}
 
 
+def _place_security(rng, doc, op, requirements):
+    """Requirements on the operation, inherited from the document, or declared for the document and switched off
+    for the operation with an empty list."""
+    where = rng.choice(["operation", "operation", "document", "document-switched-off"])
+    if where == "operation":
+        op["security"] = requirements
+    else:
+        doc["security"] = requirements
+        if where == "document-switched-off":
+            op["security"] = []
+
+
+def effective_security(doc):
+    """Security requirements that apply to the single operation of a generated document."""
+    for path_item in doc.get("paths", {}).values():
+        for method, op in path_item.items():
+            if method in ("get", "put", "post", "delete", "options", "head", "patch", "trace") and isinstance(op, dict):
+                return op.get("security", doc.get("security", []))
+    return []
+
+
 def make_operation_document(rng: random.Random, version: str, *, with_security=False, negative_friendly=False, composite=False):
     """One operation `POST /op/{p}` (or GET without body) whose inputs are drawn from the pools.
 
@@ -258,10 +279,10 @@ def make_operation_document(rng: random.Random, version: str, *, with_security=F
         doc = {"openapi": "3.0.2" if version == "3.0" else "3.1.0", "info": {"title": "t", "version": "1"}, "paths": {"/op/{p}": path_item}, "components": {"schemas": {k: adapt(v, version) for k, v in COMPONENT_SCHEMAS.items()}}}
         if with_security:
             doc["components"]["securitySchemes"] = {"K": {"type": "apiKey", "in": "header", "name": "X-API-Key"}, "B": {"type": "http", "scheme": "bearer"}}
-            op["security"] = [{"K": []}, {"B": []}]
+            _place_security(rng, doc, op, [{"K": []}, {"B": []}])
     else:
         doc = {"swagger": "2.0", "info": {"title": "t", "version": "1"}, "paths": {"/op/{p}": path_item}, "definitions": {k: adapt(v, version) for k, v in COMPONENT_SCHEMAS.items()}}
         if with_security:
             doc["securityDefinitions"] = {"K": {"type": "apiKey", "in": "header", "name": "X-API-Key"}}
-            op["security"] = [{"K": []}]
+            _place_security(rng, doc, op, [{"K": []}])
     return doc, desc, method
